@@ -7,6 +7,7 @@ import (
 	"math/big"
 	"strings"
 
+	"github.com/ohler55/ojg/alt"
 	"github.com/ohler55/ojg/jp"
 	"github.com/ohler55/slip"
 	"github.com/ohler55/slip/pkg/flavors"
@@ -89,6 +90,18 @@ func setBag(s *slip.Scope, obj *flavors.Instance, value, path slip.Object, depth
 		obj.Any = v
 	} else {
 		x.MustSet(obj.Any, v)
+		if !x.Normal() {
+			switch v.(type) {
+			case []any, map[string]any:
+				// A wildcard or descent path addresses several locations
+				// which must not share the same list or map. Changing one
+				// would change them all and a descent into the value just
+				// set never ends.
+				for _, loc := range x.Locate(obj.Any, 0) {
+					loc.MustSet(obj.Any, alt.Dup(v))
+				}
+			}
+		}
 	}
 }
 
